@@ -46,7 +46,8 @@ def run(C, R):
         # ---- R1: guard construction sites
         sites = [(fn, s) for fn, s, cl in scan_aggregates(F, GUARD) if not cl]
         R.floor('C02.R1 guard-construction-sites[%s]' % cfg, len(sites), 2)
-        site_fns = sorted(set(fn['path'] for fn, _ in sites))
+        # (a guard built inside a closure - `acquired.then(|| guard)` - is judged on the paths of the enclosing function)
+        site_fns = sorted(set(CG.root_fn(fn['path']) for fn, _ in sites))
         for fp in site_fns:
             fn = F.fn(fp)
             paths = E.run(fp)
@@ -127,6 +128,18 @@ def run(C, R):
             else:
                 R.fail('C02.R3', [fn['path'], 'non-constant-write'], 'is_locked written with a non-constant',
                        F.loc(fn, s['ln']))
+        # ... and stores made through a call (`mem::take(&mut self.is_locked)`, `mem::replace(.., false)`): from the events
+        for m in F.methods_of(STATE):
+            if m.get('name') == 'new':
+                continue
+            for path in E.run(m['path']):
+                for w in lock_writes(path):
+                    if const_of(E, path.facts, w['val']) == 0 and w['fn'] not in clear_fns and \
+                            (const_of(E, path.facts, w['old']) != 0):
+                        if (F.fn(w['fn']) or {}).get('impl_adt') == STATE:
+                            clear_fns.add(w['fn'])
+                        elif w['fn'].startswith('std::') or w['fn'].startswith('core::'):
+                            clear_fns.add(m['path'])
         R.floor('C02.R3 clear-sites[%s]' % cfg, len(clear_fns), 1)
         for cf in sorted(clear_fns):
             seen, work, roots = set(), [cf], set()
